@@ -11,6 +11,7 @@ def dispatch (comp arg : String) : String :=
   | "c27open" => runC27Open arg
   | "c27quiet" => runC27Quiet arg
   | "c27status" => runC27Status arg
+  | "c27archive" => runC27Archive arg
   | _ => "bad-component"
 
 def main : IO Unit := mainWith dispatch
